@@ -77,7 +77,7 @@ func c20KnownPattern(sp c20Spec, o c20Outcome) string {
 func init() {
 	// ---- end-to-end oracle: generated histories on SQLite -------------------------------------
 	register("C20", func(r *Result, rng *rand.Rand, tier string) {
-		n := 400
+		n := 1000
 		if tier == "thorough" {
 			n = 6000
 		} else if tier == "search" {
@@ -125,13 +125,13 @@ func init() {
 					r.H("e2e.v2.ddl", k)
 				}
 				if len(o.Third) > 0 {
-					r.H("e2e.third-run", "ddl-issued(observed, not judged)")
+					r.H("e2e.settle-run", "ddl-issued(late unique of a new field: observed)")
 					if probe {
 						b, _ := json.Marshal(sp)
 						r.Note("third run DDL: %s :: %s", strings.Join(o.Third, " ;; "), b)
 					}
 				} else {
-					r.H("e2e.third-run", "none")
+					r.H("e2e.settle-run", "none")
 				}
 			} else if probe && o.Verdict == "" {
 				b, _ := json.Marshal(sp)
